@@ -47,7 +47,7 @@ class C07(Check):
     lean_targets = ["drv_c07"]
     driver = "drv_c07"
     theorems = ["Pox.C07.sites_agree", "Pox.C07.sites_anchored", "Pox.C07.calllater_once", "Pox.C07.calllater_order",
-                "Pox.C07.sync_excludes", "Pox.C07.sync_mutual", "Pox.C07.schedule_atmost1", "Pox.C07.schedule_self_twice", "Pox.C07.schedule_hub_race_defect", "Pox.C07.schedule_wake_kept",
+                "Pox.C07.sync_excludes", "Pox.C07.sync_mutual", "Pox.C07.schedule_atmost1_partial", "Pox.C07.schedule_self_twice", "Pox.C07.schedule_hub_race_defect", "Pox.C07.schedule_wake_kept",
                 "Pox.C07.wake_noticed", "Pox.C07.incoming_noticed", "Pox.C07.hub_mode", "Pox.C07.lock_excl", "Pox.C07.lock_excl_multi", "Pox.C07.lock_handoff", "Pox.C07.lock_trylock", "Pox.C07.lock_waiters_exact",
                 "Pox.C07.lock_excl_needs_discipline"]
     anchors = []             # computed in setup(): the bodies of the functions listed in harness/translate/sites.py
@@ -348,7 +348,8 @@ class C07(Check):
                     st.slices.append(self.idx)
                     if insec: st.insec_violations.append(["user", self.idx, sorted(insec)])
                     who = ctl.me()
-                    if who is None or who.name != "S": st.wrong_thread.append(["user", self.idx, getattr(who, "name", None)])
+                    if who is None or who.name != "S" or not on_scheduler_thread():
+                        st.wrong_thread.append(["user", self.idx, getattr(who, "name", None)])
                     ctl.yield_point(("user_end", self.idx))
                     if insec: st.insec_violations.append(["user", self.idx, sorted(insec)])
                 def run(self):
@@ -375,10 +376,19 @@ class C07(Check):
             users = [UserTask(i, p) for i, p in enumerate(case["users"])]
             st.users = users
 
+            import threading as _real_threading
+            def on_scheduler_thread():
+                # the REAL interpreter thread executing this code is the OS thread the scheduler's run() was started on
+                # (Scheduler._thread, created by the real runThreaded()), and recoco's own view agrees
+                th = sched._thread
+                return (th is not None and th.mt is not None and _real_threading.current_thread() is th.mt.real
+                        and recoco.threading.current_thread() is th)
             def callback(by, seq):
                 ctl.yield_point(("cb", by, seq))
                 who = ctl.me()
-                st.executed.append([by, seq, tid_of(who.name) if who is not None else -1])
+                tid = tid_of(who.name) if who is not None else -1
+                if tid == 0 and not on_scheduler_thread(): tid = -2
+                st.executed.append([by, seq, tid])
                 if insec: st.insec_violations.append(["cb", by, seq, sorted(insec)])
             class Src:
                 def __init__(self, f): self.raiseEvent = f
@@ -1054,9 +1064,10 @@ class C07(Check):
                   "pinger's byte-counter semantics is checked separately against the real PipePinger); real OS scheduling, real time-outs, epoll "
                   "and free-threaded builds are not exercised.  Not modelled (C06's territory): timers and fd waits of ordinary tasks, "
                   "priorities < 1, quit, CallBlocking, callbacks that hand over further calls; evidence.sites.not_modelled lists every statement "
-                  "of the listed functions that is not modelled.  Known unmodelled hazard (by reading, not "
-                  "reproduced): schedule(t) for a task t that is at the same time parked in the *threaded* hub (Select/Sleep with time-out) "
-                  "races with the hub thread's own fast_schedule(t); nothing in the tree does that.  The liveness reading of 'runs exactly "
+                  "of the listed functions that is not modelled.  Known defect outside the model (finding C07-1, "
+                  "reproduced on the real classes by the case kind `hubrace`, Lean witness schedule_hub_race_defect): schedule(t) for a task t "
+                  "that is at the same time parked in the *threaded* hub races with the hub thread's own fast_schedule(t) and t is queued twice; "
+                  "nothing in the tree does that.  The liveness reading of 'runs exactly "
                   "once' (eventually executed) is covered by wake_noticed + the quiescence oracle, not by a temporal theorem.")
     rule = ("threads case = (hub mode, user-task yield programs, per-foreign-thread operation lists over {callLater, schedule(u), syncEnter, "
             "syncExit}, user programs over {yield False, yield 0, callLater, schedule(other user)}, schedule = PCT(seed,d,k) | random(seed) | "
